@@ -167,7 +167,10 @@ def missing_rule(views, fact, weights, ignore_missing, agg, shape=None, N=None):
     else:
         fv, fk = split_var(fact)
         tail = tuple(fv.shape[1:])
-        rowvalid = fk.reshape(N, -1) & wk.reshape(N, 1)
+        M = 1
+        for e in tail:
+            M *= e
+        rowvalid = fk.reshape(N, M) & wk.reshape(N, 1)
     nrows = onehot.sum(axis=0).reshape(size, 1)
     nmissing = onehot.T @ (~rowvalid).astype(np.int64)  # (size, M)
     if ignore_missing:
